@@ -91,7 +91,7 @@ class Ctx:
         self.first_samples = []
         self.failures = []          # [(case, message)]
         self.history = []           # earlier cases of this shard (bounded)
-        self.keep_history = False
+        self.keep_history = True
         self.extra = {}
         self._first_fail_t = None
         self.shrink_budget_s = 60 if tier == "quick" else 240
@@ -101,8 +101,8 @@ class Ctx:
         self.cases += 1
         if self.keep_history:
             self.history.append(case)
-            if len(self.history) > 300:
-                del self.history[0]
+            if len(self.history) > 4000:
+                del self.history[:1000]
         if out.skip:
             self.skipped += 1
             return
@@ -254,7 +254,6 @@ def _worker(args):
         import_library()
         mod = load_check(pid)
         ctx = Ctx(pid, tier, seed, index, nshards)
-        ctx.keep_history = bool(getattr(mod, "HISTORY_SENSITIVE", False))
         mod.run_shard(ctx)
         return ctx.result()
     except BaseException:           # noqa: B902 - reported as harness error
@@ -273,13 +272,33 @@ def open_findings(pid):
 
 
 def write_replay(pid, case, message):
+    """Write the replay file.  The shard history is kept in it only when the
+    bare case does not reproduce in a fresh process (history-dependent)."""
+    import subprocess
     d = os.path.join(VERIF_DIR, "replays", "found")
     os.makedirs(d, exist_ok=True)
-    name = "%s-%s.json" % (pid, digest(case))
+    bare = {k: v for k, v in case.items() if k != "_history"}
+    name = "%s-%s.json" % (pid, digest(bare))
     path = os.path.join(d, name)
-    with open(path, "w") as f:
-        json.dump({"property": pid, "message": message, "case": case}, f,
-                  indent=1, sort_keys=True, default=str)
+
+    def dump(c, note=None):
+        rec = {"property": pid, "message": message, "case": c}
+        if note:
+            rec["note"] = note
+        with open(path, "w") as f:
+            json.dump(rec, f, indent=None if "_history" in c else 1,
+                      sort_keys=True, default=str)
+    dump(bare)
+    if "_history" in case:
+        try:
+            r = subprocess.run(
+                [sys.executable, os.path.join(VERIF_DIR, "run_check.py"), pid,
+                 "--replay", path], capture_output=True, timeout=600)
+            if r.returncode == 0:
+                dump(case, "history-dependent: the bare case passes in a fresh"
+                     " process; _history holds the earlier cases of the shard")
+        except Exception:           # noqa: BLE001 - keep the bare replay
+            pass
     return os.path.relpath(path, VERIF_DIR)
 
 
